@@ -1,10 +1,13 @@
 #!/usr/bin/env python3
 """Copies confirmed seeded changes from /tmp/seeded into /verif/seeded/<id>-<n>/ and
 records, from the mutant.sh logs given on the command line, what was confirmed and
-which checks reported a violation. Later log lines override earlier ones."""
+which checks reported a violation. A check counts as reporting the change if ANY of the given
+runs of it did (the checks only grew between runs); with FINAL_LOG=<file> in the environment the
+"caught_by" list of every change that appears in that file is taken from that file alone (the
+re-validation pass against the final harness)."""
 import json, os, re, shutil, sys, glob
 logs = sys.argv[1:]
-confirm, checks, result = {}, {}, {}
+confirm, checks, result, final = {}, {}, {}, {}
 for lf in logs:
     for line in open(lf, errors="replace"):
         m = re.match(r"CONFIRM (\S+) demo_without_patch=(\S+) demo_with_patch=(\S+) suite_with_patch=(\S+)", line)
@@ -15,7 +18,12 @@ for lf in logs:
                 c["suite_with_patch"] = m.group(4)
         m = re.match(r"CHECK (\S+) (C\d+) rc=(\d+) violations_printed=(\d+) secs=(\d+)\s*(.*)", line)
         if m:
-            checks.setdefault(m.group(1), {})[m.group(2)] = {"exit": int(m.group(3)), "violation_lines": int(m.group(4)), "seconds": int(m.group(5)), "first_signature": m.group(6).strip()[:200]}
+            rec = {"exit": int(m.group(3)), "violation_lines": int(m.group(4)), "seconds": int(m.group(5)), "first_signature": m.group(6).strip()[:200]}
+            old = checks.setdefault(m.group(1), {}).get(m.group(2))
+            if lf == os.environ.get("FINAL_LOG"):
+                final.setdefault(m.group(1), {})[m.group(2)] = rec
+            if old is None or rec["exit"] == 1 or old["exit"] != 1:
+                checks[m.group(1)][m.group(2)] = rec
         m = re.match(r"RESULT (\S+) (\S+)", line)
         if m:
             result[m.group(1)] = m.group(2)
@@ -39,6 +47,9 @@ for name in sorted(confirm):
     for f in glob.glob(f"{src}/demo*"):
         shutil.copy(f, dst)
     meta = json.load(open(f"{src}/meta.json"))
+    if name in final:
+        checks[name] = final[name]
+        meta["revalidated_against_final_harness"] = True
     caught = sorted(k for k, v in checks.get(name, {}).items() if v["exit"] == 1)
     meta["breaks_property"] = pid
     meta["confirmed_by_me"] = {"demo_passes_without_patch": True, "demo_fails_with_patch": True, "existing_suite_passes_with_patch": True,
